@@ -286,7 +286,7 @@ func play(data []byte, exp [][]expectEv, ns []int, pat string, withMeta bool, se
 		// the same reader played a second time, into a port whose Send takes time
 		playVariant(data, exp, ns, pat, withMeta, sel, mp, false, true, false)
 	}
-	if _, ok := mp[-1]; ok && len(mp) <= 2 {
+	if _, ok := mp[-1]; ok && len(mp) <= 2 && len(sel) != 1 {
 		// the caller's own map used for two playbacks, with its default entry
 		// exchanged (1) or taken away (2) in between: the second playback
 		// follows the map as it is then
@@ -570,9 +570,13 @@ func allSelections(ntr int) [][]int {
 }
 
 func space(job int) {
-	// job = index into counts for track 0
-	n0 := counts[job]
+	// job = (index into counts for track 0, track count, shard of the other tracks' counts)
+	n0 := counts[job/6]
+	sub := job % 6
 	for ntr := 1; ntr <= 3; ntr++ {
+		if (ntr < 3 && sub != ntr-1) || (ntr == 3 && sub < 2) {
+			continue
+		}
 		rest := [][]int{{}}
 		for k := 1; k < ntr; k++ {
 			var nx [][]int
@@ -588,7 +592,10 @@ func space(job int) {
 		}
 		maps := allMaps(ntr)
 		sels := allSelections(ntr)
-		for _, r := range rest {
+		for ri, r := range rest {
+			if ntr == 3 && ri%4 != sub-2 {
+				continue
+			}
 			ns := append([]int{n0}, r...)
 			for _, pat := range patNames {
 				for pi, wm := range []bool{false, true, true, true} {
@@ -644,11 +651,16 @@ func space(job int) {
 // selections and explicit port entries for tracks 0, 255, 256, 257 and 299.
 // longTracks: thousands of events per track (what a player counts, batches or
 // sorts while it runs), one to three tracks, every tick pattern, two maps.
-func longTracks() {
+func longTracks(part, parts int) {
 	n := ctx.Pick(3000, 30000)
+	k := 0
 	for _, ns := range [][]int{{n}, {n / 2, n / 2}, {n / 2, 0, n / 3}, {17, n}} {
 		for _, pat := range patNames {
 			for _, wm := range []bool{false, true} {
+				k++
+				if k%parts != part {
+					continue
+				}
 				tempoLayout = 0
 				data, exp := build(ns, pat, wm)
 				for _, mp := range []map[int]string{{-1: "A"}, {0: "A", -1: "B"}} {
@@ -821,9 +833,9 @@ func main() {
 		ctx.Finish("replay")
 	}
 	ctx.Assume("order among different tracks at equal times is not judged; sysex events are neither required nor forbidden; scheduled time = exact integral of the tempo events found in the file by the reference parser, less one microsecond per tempo segment (the rounding C11 allows); order across tracks is judged with the library's own TimeAt")
-	ctx.Jobs("play", len(counts), func(j int) { space(j) })
+	ctx.Jobs("play", 6*len(counts), func(j int) { space(j) })
 	ctx.Jobs("many-tracks", 1, func(int) { manyTracks() })
-	ctx.Jobs("long-tracks", 1, func(int) { longTracks() })
+	ctx.Jobs("long-tracks", 16, func(j int) { longTracks(j, 16) })
 	ctx.Sample(map[string]interface{}{"events_per_track": []int{13, 7}, "pattern": "one-tick", "selection": "all", "port_map": "default->A, track 1->B"})
 	ctx.Guard(ctx.NontrivialCount() > 1000, "too few multi-track plays")
 	ctx.Finish("files of 1..3 tracks with per-track event counts from {0,1,2,3,7,13,20}, 5 tick patterns, with and without interspersed meta/tempo events; every subset of tracks as selection and every map {default, track 0..2} -> {absent, A, B}; MultiPlay on a virtual clock against a reference player; non-trivial = plays with at least two played tracks of more than one event")
